@@ -356,7 +356,7 @@ def drv_uncert(tier, nmodels, log):
                 '[0.26,3.4]^k (within 12%% of the generating point), 20 bootstraps, multinom off/on (theta appended), log=%s, boot_theta_adjusts (multinom off), '
                 'eps in {1e-2,2.5e-3}: FIM_uncert, GIM_uncert (+returned H, GIM) against analytic derivatives assembled with numpy.linalg: rel err <= '
                 '4*amp*eps^2 and shrinking >=8x for eps/4 (>=3x when the coarse error exceeds 5%%) down to the round-off floor (amp=max(1,cond(H)/10,cond(J)/30)); 10 permutations of the bootstraps: rel 1e-10; cache cleared '
-                'before every call; parameters on the documented one-sided branch (0<=x*eps<1e-6) are held to 6*amp*eps only' % (nmodels, log)))
+                'before every call; J and cU of get_godambe unchanged when one more bin of the data is masked (multinom off); parameters on the documented one-sided branch (0<=x*eps<1e-6) are held to 6*amp*eps only' % (nmodels, log)))
     import numpy as np
     import dadi
     from dadi import Godambe as G
@@ -445,6 +445,18 @@ def drv_uncert(tier, nmodels, log):
                                        boot_theta_adjusts=[adj[i] for i in perm] if adj else None)
                     worst = max(worst, _relerr(np, got, ref))
                 d_.case(key + ('boot-order',), worst <= 1e-10 * amp, dict(info, worst=worst), True, 'GIM_uncert-depends-on-bootstrap-order')
+                if not multinom:
+                    # the bootstrap scores (J, cU) are a property of the bootstraps, the model and p0: masking a bin of the *data* must not change them
+                    G.cache.clear()
+                    _, _, J0, cU0 = G.get_godambe(lin.func, [n], sboots, list(p0), data, 0.01, log=log, boot_theta_adjusts=adj or [])
+                    dm = data.copy()
+                    dm.mask[rng.randint(1, n - 1)] = True
+                    G.cache.clear()
+                    _, _, J1, cU1 = G.get_godambe(lin.func, [n], sboots, list(p0), dm, 0.01, log=log, boot_theta_adjusts=adj or [])
+                    same = bool(np.allclose(J0, J1, rtol=1e-12, atol=0) and np.allclose(cU0, cU1, rtol=1e-12, atol=0))
+                    d_.case(key + ('scores-independent-of-data-mask',), same, dict(info, masked_bin=int(np.flatnonzero(np.asarray(dm.mask) & ~np.asarray(data.mask))[0]),
+                                                                                  J_rel_diff=float(np.max(np.abs(J0 - J1)) / np.max(np.abs(J0)))), True,
+                            'bootstrap-scores-depend-on-the-data-mask')
                 return True, None
             d_.check(key, run, info, 'uncert-exception', nontrivial=False)
     return d_.results()
